@@ -25,7 +25,8 @@ def _check_backref(r, s2, dec, out, form, key, rel_c, decl, ref_block, params, l
     mem = [c for c in dec.calls if c[0] in ('memcpy', 'memmove', '__builtin_memcpy')]
     # copies this domain does not see: a copy loop, a routine that is called, explicit stores through the output pointer - their sizes and extents are decided by C12-EXTENT
     opaque = getattr(dec, 'loops', 0) or any(c[0] not in _COPY and c[0] not in _HINTS for c in dec.calls) or \
-        any(n.get('kind') == 'BinaryOperator' and n.get('opcode') == '=' and c_strip(n['inner'][0]).get('kind') in ('ArraySubscriptExpr', 'UnaryOperator') for n in c_walk(ref_block))
+        any(n.get('kind') == 'BinaryOperator' and n.get('opcode') == '=' and c_strip(n['inner'][0]).get('kind') in ('ArraySubscriptExpr', 'UnaryOperator') for n in c_walk(ref_block)) or \
+        any(n.get('kind') == 'CallExpr' and c_name(n['inner'][0]) in _COPY and any(_is_scratch_arg(c_strip(a)) for a in n['inner'][1:3]) for n in c_walk(ref_block))
     if not mem and not opaque:
         r.violate(key + ':no-copy', rel_c, decl[0].line, 'decoder back-reference block performs no memcpy on branch %s' % path)
         return
@@ -41,7 +42,7 @@ def _check_backref(r, s2, dec, out, form, key, rel_c, decl, ref_block, params, l
     for c in mem:
         sz = c[1][2]
         slin = s2.root(s2.as_lin(sz) or sz.lin) if sz is not None else None
-        if slin != (ln, 0):
+        if slin is not None and slin != (ln, 0):       # a size this domain has no value for (a product, a sizeof) is decided by C12-EXTENT: write-extent / coverage / advance
             r.violate(key + ':copy-size', rel_c, decl[0].line,
                       '%s token: memcpy copies %s bytes (branch %s) but the token denotes %s bytes: the surplus is written beyond the decoded data, possibly past the end of the output buffer'
                       % (form, slin if slin else 'a different number of', path, (ln, 0)))
@@ -71,6 +72,15 @@ def _check_backref(r, s2, dec, out, form, key, rel_c, decl, ref_block, params, l
         elin, eav = next(((l, a) for l, a in lins if l is not None), lins[0])
         r.violate(key + ':end-offset', rel_c, decl[0].line,
                   '%s token: the decoder reconstructs end offset %s but the encoder stored %s — offset bit fields / bias / range guard disagree (%r)' % (form, elin, s2.root((offend, 0)), s2.norm(eav)))
+
+
+def _is_scratch_arg(a):
+    """a copy argument that names a scratch object of the step: `&local`, or a local array (bytes staged in a machine word / a small buffer)"""
+    while a.get('kind') in ('ParenExpr', 'ImplicitCastExpr', 'CStyleCastExpr'):
+        a = a['inner'][-1]
+    if a.get('kind') == 'UnaryOperator' and a.get('opcode') == '&':
+        return True
+    return a.get('kind') == 'DeclRefExpr' and '[' in ((a.get('type') or {}).get('qualType') or '')
 
 
 def _loop_tolerant_cabs():
@@ -244,6 +254,8 @@ def lzss_rules(ctx):
                           'encoder emits a value in %s..%s as byte %d of a %s token: bytearray.append() needs 0..255 (assuming match length <= %d)' % (av.lo, av.hi, i, form, maxlen))
         dec0 = _LoopTolerantCAbs(s2, [e.av for e in out], srcname)
         if fl.lo == 1:
+            if any(n.get('kind') == 'CallExpr' and c_name(n['inner'][0]) in _COPY and any(_is_scratch_arg(c_strip(a)) for a in n['inner'][1:3]) for n in c_walk(lit_block)):
+                continue        # the literal is staged in a local: what is read and consumed is decided on the symbolic execution (C12-LIT, C12-EXTENT input-extent)
             for dec in dec0.run_all(lit_block):
                 if dec.consumed != len(out) or len(out) != 1:
                     r.violate(key + ':consumed', rel_c, decl[0].line, 'literal token: encoder emits %d byte(s), decoder consumes %d' % (len(out), dec.consumed))
@@ -842,7 +854,7 @@ class Lin:
 
 def _sym_deps(sym, out, opaque):
     """input bytes a symbol depends on -> out; symbols that cannot be enumerated -> opaque"""
-    if isinstance(sym, str) or sym[0] in ('V', 'M', 'U'):
+    if isinstance(sym, str) or sym[0] in ('V', 'M', 'U', 'T'):
         opaque.add(sym)
     elif sym[0] == 'B':
         out.add(sym[1])
@@ -883,6 +895,9 @@ def _lin_value(lin, asg):
     return _key_value((lin.c, tuple(lin.t.items())), asg)
 
 
+_ATOM_BOUNDS = {}
+
+
 class _TokState:
     def __init__(self):
         self.env = {}
@@ -896,6 +911,9 @@ class _TokState:
         self.returned = False
         self.retval = None
         self.facts = {}          # decisions taken on conditions over values that cannot be enumerated (same value -> same decision later on)
+        self.lsize = {}          # scratch object of the step (a local the address of which is taken, a local array) -> its size in bytes
+        self.lcont = {}          # scratch object -> (number of bytes filled from its start, source they were copied from)
+        self.reads = []          # (offset from the output base, size, what): loads from the output into a scratch object (their size need not be the size stored later)
 
     def clone(self):
         c = _TokState()
@@ -903,6 +921,7 @@ class _TokState:
         c.src_read, c.trace, c.mem, c.returned = set(self.src_read), self.trace, dict(self.mem), self.returned
         c.facts = dict(self.facts)
         c.retval = self.retval
+        c.lsize, c.lcont, c.reads = dict(self.lsize), dict(self.lcont), list(self.reads)
         return c
 
     def domain(self, k):
@@ -964,6 +983,23 @@ class _TokState:
         if isinstance(s, tuple) and s[0] == 'B':
             d = self.domain(s[1])
             return min(d), max(d)
+        if isinstance(s, tuple) and s[0] in ('A', 'C'):
+            # an atom over one or two input bytes: its exact range over the values the bytes can still have on this path
+            bs, opq = set(), set()
+            _sym_deps(s, bs, opq)
+            if not opq and 1 <= len(bs) <= 2:
+                doms = tuple((k, self.domain(k)) for k in sorted(bs))
+                n = 1
+                for _, d in doms:
+                    n *= len(d)
+                if n <= 4096:
+                    ck = (s, doms)
+                    if ck not in _ATOM_BOUNDS:
+                        vals = [_sym_value(s, dict(zip([k for k, _ in doms], v))) for v in itertools.product(*[sorted(d) for _, d in doms])]
+                        if len(_ATOM_BOUNDS) > 200000:
+                            _ATOM_BOUNDS.clear()
+                        _ATOM_BOUNDS[ck] = (min(vals), max(vals))
+                    return _ATOM_BOUNDS[ck]
         if isinstance(s, tuple) and s[0] == 'M':
             return 0, 255
         if isinstance(s, tuple) and s[0] == 'C':
@@ -1208,6 +1244,18 @@ class TokenExec:
                 return self.ev(st, sub)
             if op == '~':
                 return self.ev(st, sub).scale(-1).add(Lin(-1))
+            if op == '&':
+                from ..engine.absint import c_strip
+                tgt = c_strip(sub)
+                if tgt.get('kind') == 'DeclRefExpr' and c_name(tgt) in st.env and c_name(tgt) not in self.params:
+                    # the address of a local of the step: a scratch object that bytes are staged in (memcpy(&word, ...); memcpy(..., &word, ...))
+                    nm = c_name(tgt)
+                    if nm not in st.lsize:
+                        st.lsize[nm] = self.type_size(tgt.get('type') or {})
+                    return Lin(0, {('T', nm): 1})
+                if tgt.get('kind') in ('ArraySubscriptExpr', 'UnaryOperator'):
+                    return self.address(st, tgt)
+                raise Unmodellable('the address of something that is neither a local nor an element of a buffer')
             raise Unmodellable('unary %s in a value' % op)
         if k == 'BinaryOperator':
             op = n.get('opcode')
@@ -1244,7 +1292,10 @@ class TokenExec:
                 return self.ev(st, args[0])
             if callee in _COPY and len(args) == 3:
                 d, s, sz = [self.ev(st, a) for a in args]
-                s = st.simp(s)
+                s, d = st.simp(s), st.simp(d)
+                dl, sl = self.scratch(d), self.scratch(s)
+                if dl is not None or sl is not None:
+                    return self.staged_copy(st, callee, d, s, st.simp(sz), dl, sl)
                 if s.t.get('D') == 1 and 'S' not in s.t:
                     source = ('out', s.add(Lin(0, {'D': 1}), -1))
                 elif s.t.get('S') == 1 and 'D' not in s.t:
@@ -1265,8 +1316,67 @@ class TokenExec:
                 return d
             raise Unmodellable('call of %s()' % callee)
         if k == 'UnaryExprOrTypeTraitExpr':
-            raise Unmodellable('sizeof')
+            if n.get('name') != 'sizeof':
+                raise Unmodellable(str(n.get('name')))
+            t = n.get('argType')
+            if t is None:
+                sub = [c for c in n.get('inner', []) if isinstance(c, dict) and c.get('kind')]
+                if not sub:
+                    raise Unmodellable('sizeof without an operand')
+                while sub[0].get('kind') == 'ParenExpr':
+                    sub = sub[0]['inner']
+                t = sub[0].get('type')
+            return Lin(self.type_size(t or {}))
         raise Unmodellable('expression of kind %s' % k)
+
+    @staticmethod
+    def scratch(addr):
+        """name of the scratch object an address points into (None: not into one)"""
+        ts = [k for k in addr.t if isinstance(k, tuple) and k[0] == 'T']
+        if not ts:
+            return None
+        if len(ts) != 1 or addr.t[ts[0]] != 1 or len(addr.t) != 1:
+            raise Unmodellable('arithmetic on the address of a local (%r)' % addr)
+        return ts[0][1]
+
+    def staged_copy(self, st, callee, d, s, sz, dl, sl):
+        """memcpy into / out of a scratch object of the step (`uint64_t word; memcpy(&word, from, 8); memcpy(to, &word, 8);`): the second copy is a copy
+        from where the first one read - all bytes are read before any is written (the semantics of memmove)"""
+        if dl is not None and sl is not None:
+            raise Unmodellable('a copy from one local into another (%s, %s)' % (sl, dl))
+        lo_n, hi_n = st.bounds(sz)
+        if lo_n is None or hi_n is None or lo_n < 0:
+            raise Unmodellable('a copy through the local %s of a size without bounds (%r)' % (dl or sl, sz))
+        if dl is not None:
+            if d.c != 0:
+                raise Unmodellable('a copy into the middle of the local %s' % dl)
+            if hi_n > st.lsize.get(dl, 0):
+                raise Unmodellable('up to %d bytes are copied into the local %s of %d bytes' % (hi_n, dl, st.lsize.get(dl, 0)))
+            if s.t.get('D') == 1 and 'S' not in s.t:
+                src = ('out', s.add(Lin(0, {'D': 1}), -1))
+                st.reads.append((src[1], sz, '%s into the local %s' % (callee, dl)))
+            elif s.t.get('S') == 1 and 'D' not in s.t:
+                n = sz.const()
+                if n is None:
+                    raise Unmodellable('a copy from the input of a size that is not constant')
+                src = ('in', self.load(st, s))
+                for i in range(1, n):
+                    self.load(st, s.add(Lin(i)))
+            else:
+                raise Unmodellable('%s from %r into the local %s' % (callee, s, dl))
+            st.lcont[dl] = (sz, src)
+            if dl in st.env and not self.scratch(st.env[dl]):
+                st.env[dl] = Lin(0, {self.new('U'): 1})         # the value of the variable is what was copied into it: not tracked as a number
+            return d
+        if s.c != 0:
+            raise Unmodellable('a copy out of the middle of the local %s' % sl)
+        if sl not in st.lcont:
+            raise Unmodellable('the local %s is copied to the output before anything was copied into it' % sl)
+        have, src = st.lcont[sl]
+        if sz.key() != have.key() and hi_n > (st.bounds(have)[0] or 0):
+            raise Unmodellable('%r bytes are copied out of the local %s, which holds %r' % (sz, sl, have))
+        self.store(st, d, sz, src, 'copy through the local %s' % sl)
+        return d
 
     def var(self, st, n):
         from ..engine.absint import c_name
@@ -1290,6 +1400,22 @@ class TokenExec:
         else:
             source = ('value', None)
         self.store(st, self.address(st, l), Lin(self.width(l)), source, 'store')
+
+    @staticmethod
+    def type_size(t):
+        """sizeof of a clang type record: integer types, pointers, arrays of them"""
+        for q in ((t.get('desugaredQualType') or ''), (t.get('qualType') or '')):
+            q = q.replace('const ', '').replace('volatile ', '').strip()
+            if not q:
+                continue
+            dims = re.findall(r'\[(\d+)\]', q)
+            base = re.sub(r'\[\d+\]', '', q).strip()
+            size = 8 if base.endswith('*') else (_UNSIGNED.get(base) or _SIGNED.get(base) or 0) // 8
+            if size and '[]' not in q:
+                for d in dims:
+                    size *= int(d)
+                return size
+        raise Unmodellable('sizeof applied to the type %s' % (t.get('qualType') or '?'))
 
     def width(self, n):
         """size in bytes of the object an lvalue expression denotes (a store through a cast pointer writes the whole word)"""
@@ -1428,6 +1554,14 @@ class TokenExec:
             for d in n.get('inner', []):
                 if d.get('kind') == 'VarDecl':
                     init = [c for c in d.get('inner', []) if isinstance(c, dict) and c.get('kind')]
+                    if re.search(r'\[\d+\]$', ((d.get('type') or {}).get('desugaredQualType') or (d.get('type') or {}).get('qualType') or '').strip()):
+                        if init:
+                            raise Unmodellable('a local array with an initialiser')
+                        st.lsize[d['name']] = self.type_size(d.get('type') or {})       # a scratch buffer: its name stands for its address
+                        st.lcont.pop(d['name'], None)
+                        st.env[d['name']] = Lin(0, {('T', d['name']): 1})
+                        continue
+                    st.lcont.pop(d['name'], None)
                     st.env[d['name']] = self.ev(st, init[-1]) if init else Lin(0, {self.new('U'): 1})
                 else:
                     raise Unmodellable('declaration of kind %s' % d.get('kind'))
@@ -1571,6 +1705,26 @@ static size_t __pyx_lzss_decompress_sa_pc(const uint8_t* src, uint8_t* dst, size
 _OK_DECODER = _PC_DECODER.replace('_sa_pc', '_sa_ok').replace('if (out_pos + n < dst_len) {', 'if (out_pos + n + 8 <= dst_len && off + n >= 8) {')
 
 
+def _fold_sizeof(n):
+    """sizeof(<integer type / pointer / array of them>) -> the integer literal it stands for (LP64, as everywhere in this model), in place"""
+    for i, c in enumerate(n.get('inner', []) or []):
+        if not isinstance(c, dict):
+            continue
+        if c.get('kind') == 'UnaryExprOrTypeTraitExpr' and c.get('name') == 'sizeof':
+            t = c.get('argType')
+            if t is None:
+                sub = [x for x in c.get('inner', []) if isinstance(x, dict) and x.get('kind')]
+                while sub and sub[0].get('kind') == 'ParenExpr':
+                    sub = sub[0].get('inner', [])
+                t = sub[0].get('type') if sub else None
+            try:
+                n['inner'][i] = {'kind': 'IntegerLiteral', 'value': str(TokenExec.type_size(t or {})), 'type': c.get('type'), 'valueCategory': 'prvalue', 'range': c.get('range'), 'id': c.get('id')}
+                continue
+            except Unmodellable:
+                pass
+        _fold_sizeof(c)
+
+
 def _decoder_asts(ctx):
     """{function name: clang FunctionDecl} of the decoder shipped in StringTools.c and of the embedded positive example (one clang process)"""
     def build():
@@ -1613,6 +1767,7 @@ def _decoder_asts(ctx):
                 continue
             i = k
             if d.get('kind') == 'FunctionDecl' and any(c.get('kind') == 'CompoundStmt' for c in d.get('inner', [])):
+                _fold_sizeof(d)
                 found[d.get('name')] = d
         if _DECODER not in found or _DECODER + '_sa_pc' not in found or _DECODER + '_sa_ok' not in found:
             raise AnalysisError('function %s not found in clang AST' % _DECODER)
@@ -1650,6 +1805,43 @@ def _r_range(rcons, asg, adv):
 
 
 _FLIP = {'<': '>', '<=': '>=', '>': '<', '>=': '<=', '==': '==', '!=': '!='}
+
+
+def _partial(st, lin, asg):
+    """lin with every atom whose input bytes are all given by asg replaced by its value"""
+    out = Lin(lin.c, dict(lin.t))
+    for s in list(out.t):
+        if isinstance(s, tuple) and s[0] in ('B', 'A', 'C'):
+            bs, opq = set(), set()
+            _sym_deps(s, bs, opq)
+            if not opq and all(k in asg for k in bs):
+                out.c += out.t.pop(s) * _sym_value(s, asg)
+    return out
+
+
+def _witness(st, lin, asg, pred):
+    """a concrete token (values of the input bytes lin still depends on, consistent with the path) for which pred(value of lin) holds -> (value, assignment); None when
+    there is none among the combinations tried (all of them when they are few, the corner values of each byte otherwise)"""
+    bs, opq = _deps(lin)
+    if opq:
+        return None
+    bs = sorted(bs)
+    n = 1
+    for k in bs:
+        n *= len(st.domain(k))
+    doms = [sorted(st.domain(k)) for k in bs] if n <= 70000 else [sorted({min(st.domain(k)), max(st.domain(k))}) for k in bs]
+    for vals in itertools.product(*doms):
+        full = dict(asg)
+        full.update(zip(bs, vals))
+        try:
+            if not all(_CMP[op](_lin_value(d, full), 0) for d, op in st.cons if _deps(d)[0] <= set(full)):
+                continue
+            v = _lin_value(lin, full)
+        except KeyError:
+            continue
+        if pred(v):
+            return v, full
+    return None
 
 
 def token_footprint(fdecl, paths=None, names=None, helpers=None):
@@ -1702,8 +1894,19 @@ def token_footprint(fdecl, paths=None, names=None, helpers=None):
             if cl + cp != 0 or abs(cl) != 1:
                 raise Unmodellable('a condition compares dst_len with something that is not a distance from the output position (%r %s 0)' % (d, op))
             e = st.simp(Lin(d.c, {s: v for s, v in d.t.items() if s not in ('L', P)}))
-            deps |= pure(e, 'a bound compared with dst_len')
-            rcons.append((e.scale(-1), op) if cl == 1 else (e, _FLIP[op]))        # d = e + cl * R  op 0   ->   R op' bound
+            bound, bop = (e.scale(-1), op) if cl == 1 else (e, _FLIP[op])        # d = e + cl * R  op 0   ->   R op' bound
+            eb = pure(e, 'a bound compared with dst_len')
+            if len(deps | eb) > 2 and not eb <= deps:
+                # the bound depends on more input bytes than can be tabulated together with the advance (a position that involves the offset fields is compared
+                # with dst_len): the condition is weakened to the extreme values of the bound - more values of the room are admitted on the path, none is lost
+                blo, bhi = st.bounds(bound)
+                if bop in ('>', '>=', '==') and blo is not None:
+                    rcons.append((Lin(blo), '>=' if bop == '==' else bop))
+                if bop in ('<', '<=', '==') and bhi is not None:
+                    rcons.append((Lin(bhi), '<=' if bop == '==' else bop))
+                continue
+            deps |= eb
+            rcons.append((bound, bop))
         ws = []
         for off, n, src, what in st.writes:
             rel, n = st.simp(off.add(VP, -1)), st.simp(n)
@@ -1787,6 +1990,29 @@ def token_footprint(fdecl, paths=None, names=None, helpers=None):
                         problem('write-extent', kind, 'a %s that advances the output by %d makes a %s of %d byte(s) at offset %d from the output position, i.e. up to offset %d, while as '
                                 'little as %d byte(s) of the output buffer are left on this path: %d byte(s) are written past the end of the buffer (nothing that dominates the %s bounds it by dst_len)'
                                 % (label, a, what, wn, wlo, wlo + wn, lo_r, wlo + wn - lo_r, what))
+                # copies out of the output read inside the buffer: [source, source + size) ends at or below dst_len for the smallest room the path admits
+                # (a copy whose source lies below its destination satisfies this by itself; a word that is loaded whole for a short match does not)
+                for srcoff, n, what in [(src[1], n, what) for rel, n, src, what, off in i['ws'] if src[0] == 'out'] + st.reads:
+                    try:
+                        wn = _lin_value(st.simp(n), asg)
+                    except KeyError:
+                        continue            # the size depends on bytes outside this table: undecided here
+                    if wn <= 0:
+                        continue
+                    end = _partial(st, st.simp(srcoff.add(VP, -1)).add(Lin(wn)), asg)      # end of the source relative to the output position
+                    lo_e, hi_e = st.bounds(end)
+                    room = max(lo_r, a)
+                    if hi_e is not None and hi_e <= room:
+                        i['clauses'].add('read-extent')
+                        continue
+                    wit = _witness(st, end, asg, lambda v: v > room)
+                    if wit is not None:
+                        i['clauses'].add('read-extent')
+                        problem('read-extent', kind, 'a %s that advances the output by %d makes a %s of %d byte(s) whose source ends %d byte(s) above the output position while as little as %d '
+                                'byte(s) of the output buffer are left on this path: %d byte(s) are read behind the end of the buffer, e.g. for the token bytes %s (nothing that dominates the '
+                                'copy keeps its source below dst_len)' % (label, a, what, wn, wit[0], room, wit[0] - room,
+                                                                          ' '.join('%02X' % wit[1][k] if k in wit[1] else '..' for k in sorted(st.src_read))))
+                    # neither bounded nor refuted by a concrete token: the clause stays undecided for this path (it is not counted)
                 pos = 0
                 for wlo, whi in sorted(covered):
                     if wlo > pos:
